@@ -29,6 +29,11 @@ class BudgetExceeded(BaseException):
     pass
 
 
+class PathTimeout(BaseException):
+    """One path of the code under test ran longer than the per-path wall
+    budget (a hang of the real code, or a harness that is too slow)."""
+
+
 CUR = None  # the active Explorer
 
 
@@ -51,8 +56,10 @@ class Stats:
         self.undecided = 0
         self.refuted = 0
         self.incomplete = 0
+        self.timeouts = 0
 
     def add(self, o):
+        self.timeouts += getattr(o, "timeouts", 0)
         self.paths += o.paths
         self.aborted_paths += o.aborted_paths
         self.forks += o.forks
@@ -76,13 +83,18 @@ class Stats:
     def from_dict(cls, d):
         s = cls()
         s.__dict__.update(d)
+        s.timeouts = d.get("timeouts", 0)
         s.queries = dict(d["queries"])
         return s
 
 
 class Explorer:
+    CROSS = {"every": int(__import__("os").environ.get("VERIF_CROSSCHECK", "0")), "count": 0,
+             "asked": 0, "agree": 0, "inconclusive": 0, "disagree": []}
+
     def __init__(self, timeout_ms=10000, max_paths=20000, max_decisions=400,
-                 wall_s=None, logic=None):
+                 wall_s=None, logic=None, path_timeout_s=60):
+        self.path_timeout_s = path_timeout_s
         self.solver = z3.Solver() if logic is None else z3.SolverFor(logic)
         self.solver.set("timeout", timeout_ms)
         self.stats = Stats()
@@ -114,7 +126,13 @@ class Explorer:
         prev = CUR
         CUR = self
         try:
+            self.abort_all = False
             while work:
+                if self.abort_all:
+                    # a harness asked to stop (e.g. the code under test hangs on every path)
+                    self.complete = False
+                    self.stats.incomplete += 1
+                    break
                 if self.stats.paths >= self.max_paths or (
                         self.wall_s is not None
                         and time.perf_counter() - t0 > self.wall_s):
@@ -129,6 +147,15 @@ class Explorer:
                 self.new_alts = []
                 self.path_fresh = itertools.count()
                 self.solver.push()
+                old_handler = None
+                if self.path_timeout_s:
+                    import signal
+                    import threading
+                    if threading.current_thread() is threading.main_thread():
+                        def _on_alarm(signum, frame):
+                            raise PathTimeout()
+                        old_handler = signal.signal(signal.SIGALRM, _on_alarm)
+                        signal.setitimer(signal.ITIMER_REAL, self.path_timeout_s)
                 try:
                     res = fn(self)
                     results.append((list(self.trail), res))
@@ -138,7 +165,16 @@ class Explorer:
                 except BudgetExceeded:
                     self.complete = False
                     self.stats.incomplete += 1
+                except PathTimeout:
+                    self.complete = False
+                    self.stats.incomplete += 1
+                    self.abort_all = True
+                    self.stats.timeouts += 1
                 finally:
+                    if old_handler is not None:
+                        import signal
+                        signal.setitimer(signal.ITIMER_REAL, 0)
+                        signal.signal(signal.SIGALRM, old_handler)
                     self.solver.pop()
                 self.stats.max_depth = max(self.stats.max_depth, len(self.trail))
                 work.extend(self.new_alts)
@@ -251,6 +287,10 @@ class Explorer:
             r = self.check()
             return "refuted", (self.model() if r == z3.sat else None)
         r = self.check(z3.Not(cond))
+        if self.CROSS["every"] and r != z3.unknown:
+            self.CROSS["count"] += 1
+            if self.CROSS["count"] % self.CROSS["every"] == 0:
+                self._cross_check(z3.Not(cond), r)
         if r == z3.unsat:
             self.stats.discharged += 1
             return "valid", None
@@ -262,6 +302,42 @@ class Explorer:
 
     def valid(self, cond):
         return self.prove(cond)[0] == "valid"
+
+    def _cross_check(self, extra, z3_verdict):
+        """Second opinion of cvc5 (binary on PATH) on a sampled validity query
+        (thorough tier).  A definite disagreement is a harness error."""
+        import os
+        import subprocess
+        import tempfile
+        self.solver.push()
+        try:
+            self.solver.add(extra)
+            text = self.solver.to_smt2()
+        finally:
+            self.solver.pop()
+        text = "(set-logic ALL)\n" + text
+        fd, path = tempfile.mkstemp(suffix=".smt2", prefix="vf_cross_")
+        try:
+            with os.fdopen(fd, "w") as f:
+                f.write(text)
+            self.CROSS["asked"] += 1
+            try:
+                p = subprocess.run(["cvc5", "--tlimit=3000", path], capture_output=True, text=True, timeout=20)
+                out = (p.stdout or "").strip().splitlines()
+                ans = out[0].strip() if out else "unknown"
+            except Exception:  # noqa
+                ans = "unknown"
+            if ans not in ("sat", "unsat") or "(error" in (p.stdout + p.stderr if "p" in dir() else ""):
+                self.CROSS["inconclusive"] += 1
+            elif ans == str(z3_verdict):
+                self.CROSS["agree"] += 1
+            else:
+                self.CROSS["disagree"].append({"z3": str(z3_verdict), "cvc5": ans, "query": text[:2000]})
+        finally:
+            try:
+                os.unlink(path)
+            except OSError:
+                pass
 
     def path_model(self):
         r = self.check()
